@@ -168,6 +168,11 @@ func checkBool(c Case, r *vf.R) error {
 			if r.Excluded("F01e", oracle.SelfIntersects(P.polys, 1e-9) || oracle.SelfIntersects(Q.polys, 1e-9)) {
 				return nil
 			}
+			// F01f: an operand with an edge shorter than two cells of the 1e-8 snap grid (a needle that collapses when snapped):
+			// P.And(Q) of P=M-2 -2L-2.00000001 -2.00000001L0 3z, Q=M-2 -3L-2 1L-1 1L-1 -3z panics "next node for result polygon is nil"
+			if r.Excluded("F01f", tinyEdge(c.P) || tinyEdge(c.Q)) {
+				return nil
+			}
 			// curved operands are flattened first: the open findings of Flatten (C03) apply to their segments
 			for _, o := range []operand{P, Q} {
 				for _, sg := range o.segs {
@@ -209,6 +214,33 @@ func checkBool(c Case, r *vf.R) error {
 		return nil
 	}
 	return err
+}
+
+// tinyEdge: whether a flat contour has an edge (the closing one included) of a length between 0 and 2e-8.
+func tinyEdge(ps gen.PathSpec) bool {
+	var first, prev []float64
+	short := func(a, b []float64) bool {
+		d := math.Hypot(a[0]-b[0], a[1]-b[1])
+		return 0 < d && d < 2e-8
+	}
+	for _, c := range ps.Cmds {
+		switch c.Op {
+		case "M":
+			first, prev = c.A, c.A
+		case "L":
+			if prev != nil && short(prev, c.A) {
+				return true
+			}
+			prev = c.A
+		case "z":
+			if prev != nil && first != nil && short(prev, first) {
+				return true
+			}
+		default:
+			prev = c.A[len(c.A)-2:]
+		}
+	}
+	return false
 }
 
 // degeneracy: whether some contour is a two-vertex spike, and the largest number of contours (over both
